@@ -121,7 +121,13 @@ def gen_data(rng):
                 X = [[X[i][j] + off[j] for j in range(d)] for i in range(n)]
         else:
             X = [[rng.randint(-16, 16) / float(2 ** mexp) for _ in range(d)] for _ in range(n)]
-        case = dict(n=n, d=d, centre=centre, kind=kind, X=X, inplace=rng.random() < 0.5,
+        far = centre and rng.random() < 0.25
+        if far:
+            # data far from the origin (|mean| >> spread, still exactly representable): the covariance of a centred
+            # model does not depend on where the cloud sits
+            big = [2.0 ** rng.choice([16, 20]) * rng.choice([1, -1, 3]) for _ in range(d)]
+            X = [[X[i][j] + big[j] for j in range(d)] for i in range(n)]
+        case = dict(n=n, d=d, centre=centre, kind=kind, X=X, far_from_origin=far, inplace=rng.random() < 0.5,
                     ctor=rng.choice(["data", "data", "data", "cov"]) if kind != "image" else "data")
         if conditioned(case):
             return case
@@ -140,6 +146,24 @@ def exact_stats(case):
     return m, Xc, C
 
 
+def _exact_rank(rows):
+    """rank of a Fraction matrix by Gaussian elimination"""
+    A = [list(r) for r in rows]
+    rank, ncol = 0, len(A[0]) if A else 0
+    for c in range(ncol):
+        piv = next((i for i in range(rank, len(A)) if A[i][c] != 0), None)
+        if piv is None:
+            continue
+        A[rank], A[piv] = A[piv], A[rank]
+        pv = A[rank][c]
+        for i in range(rank + 1, len(A)):
+            if A[i][c] != 0:
+                f = A[i][c] / pv
+                A[i] = [a - f * b for a, b in zip(A[i], A[rank])]
+        rank += 1
+    return rank
+
+
 def conditioned(case):
     """spectrum of the exact covariance: something to find, eigenvalues either clearly non-zero or zero,
     clearly separated (the property's 'well-separated spectrum'); decided on the input, never on the
@@ -152,6 +176,11 @@ def conditioned(case):
         return False
     nz = [v for v in ev if abs(v) > 1e-11 * top]
     if any(v < 1e-3 * top for v in nz):       # pcacov's eps is 1e-5, pca's 1e-10: stay far from both
+        return False
+    # "zero" must mean exactly zero: the rank is decided in exact arithmetic (corrected false alarm: a 12x12
+    # uncentred data set had a true eigenvalue 7e-13 of the largest, below the float test above, which the code's
+    # eps threshold rightly discards - so "all components kept" did not reconstruct the training set)
+    if _exact_rank(Xc) != len(nz):
         return False
     for a, b in zip(nz, nz[1:]):
         if (a - b) < 1e-3 * top:
@@ -235,6 +264,10 @@ def probes(rng, case, k):
     """weight vectors and novel vectors (small dyadic)"""
     d = case["d"]
     xs = [[rng.randint(-16, 16) / 2.0 for _ in range(d)] for _ in range(2)]
+    if case.get("far_from_origin"):
+        # novel vectors near the data (first sample + small offsets): a query a million spreads away from the
+        # cloud would only measure float cancellation, not the model
+        xs = [[case["X"][0][j] + v for j, v in enumerate(x)] for x in xs]
     ws = [[rng.randint(-12, 12) / 4.0 for _ in range(k)], [rng.randint(-12, 12) / 4.0 for _ in range(max(1, k - 1))]]
     return xs, ws
 
@@ -341,6 +374,7 @@ def run_model_case(ctx, case, rng, cid, lines, expect):
     ctx.count("kind:" + case["kind"])
     ctx.count("ctor:" + case.get("ctor", "data"))
     ctx.count("centre:%s" % case["centre"])
+    ctx.count("far-from-origin:%s" % bool(case.get("far_from_origin")))
     ctx.count("rankdef:%s" % (case["rank"] < min(case["d"], case["n"] - (1 if case["centre"] else 0))))
     # mean
     mean = ad.mean()
